@@ -111,17 +111,15 @@ theorem C09_gaussian_pinned_violates (a bc o : Desc) (h : Acceptable a o none) :
   simp only [expectedDtype] at h1
   flow_eval getOutput, h1, h2, h3
 
-/-- **C09-T2 (Gaussian ping-pong honouring the convention), ranks 1–3 only** (`_partial`: the loop is
-unrolled for the ranks the property quantifies over, not proved for every number of axes): passes
-alternate between the user's buffer and one scratch buffer and the last pass is copied back when it
-landed in the scratch buffer. -/
-theorem C09_flow_gaussian_pingpong_partial (a bc : Desc) :
-    Honours [a, bc] a none (fun out => gaussRepairedP 0 1 out 1) (.ap .gauss1d (.inp 0) (.inp 1)) ∧
-    Honours [a, bc] a none (fun out => gaussRepairedP 0 1 out 2)
-      (.ap .gauss1d (.ap .gauss1d (.inp 0) (.inp 1)) (.inp 1)) ∧
-    Honours [a, bc] a none (fun out => gaussRepairedP 0 1 out 3)
-      (.ap .gauss1d (.ap .gauss1d (.ap .gauss1d (.inp 0) (.inp 1)) (.inp 1)) (.inp 1)) := by
-  refine ⟨?_, ?_, ?_⟩ <;> honours_tac a, none
+/-- **C09-T2 (Gaussian ping-pong honouring the convention), any number of axes.** Passes alternate
+between the user's buffer and one scratch buffer (allocated by the first pass) and the last pass is
+copied back when it landed in the scratch buffer: for every rank `n`, with an acceptable `out` the
+returned buffer is `out` itself and holds the `n`-fold filtered input, exactly what the call without
+`out` returns; an unacceptable `out` raises before anything is written. (This is the flow a repair of
+defect #14 has to realise; the pinned flow is `C09_gaussian_pinned_violates`.) -/
+theorem C09_flow_gaussian_pingpong (a bc : Desc) (n : Nat) :
+    Honours [a, bc] a none (fun out => gaussRepairedP 0 1 out n) (gaussIter (.inp 1) n (.inp 0)) :=
+  flow_gaussian_all a bc n
 
 /-- **C09 (`hitmiss`, hand-written validation, as repaired).** The supplied buffer is used (itself, or
 its uint8 view when a bool buffer is given for a uint8 input) exactly when it has the input's shape,
